@@ -1063,6 +1063,17 @@ func writeStepRw(w *formatting.IndentedWriter, stepType dsl.Type, target string,
 	}
 }
 
+// The name of the temporary that a reader or writer method declares for a step that was added or whose type changed.
+// It must not hide the method's parameter or the locals that the method declares itself.
+func stepTemporaryName(step *dsl.ProtocolStep) string {
+	name := common.FieldIdentifierName(step.Name)
+	switch name {
+	case "value", "values", "read_block_successful":
+		name += "_tmp"
+	}
+	return name
+}
+
 func writeProtocolStep(w *formatting.IndentedWriter, step *dsl.ProtocolStep, changes map[string]dsl.TypeChange, isPlural bool, write bool) {
 	target := "value"
 	if isPlural {
@@ -1080,7 +1091,7 @@ func writeProtocolStep(w *formatting.IndentedWriter, step *dsl.ProtocolStep, cha
 					fmt.Fprintln(w, "values.clear();")
 				} else {
 					tmpVarType := common.TypeSyntax(step.Type)
-					tmpVarName := common.FieldIdentifierName(step.Name)
+					tmpVarName := stepTemporaryName(step)
 					fmt.Fprintf(w, "%s %s = {};\n", tmpVarType, tmpVarName)
 					fmt.Fprintf(w, "value = std::move(%s);\n", tmpVarName)
 					if step.IsStream() {
@@ -1098,7 +1109,7 @@ func writeProtocolStep(w *formatting.IndentedWriter, step *dsl.ProtocolStep, cha
 
 			// Otherwise, we need to do explicit conversion for this ProtocolStep
 			if isPlural {
-				tmpVecName := common.FieldIdentifierName(step.Name)
+				tmpVecName := stepTemporaryName(step)
 				tmpVecType := *change.OldType().(*dsl.GeneralizedType)
 				tmpVecType.Dimensionality = &dsl.Vector{}
 				fmt.Fprintf(w, "%s %s = {};\n", common.TypeSyntax(&tmpVecType), tmpVecName)
@@ -1119,7 +1130,7 @@ func writeProtocolStep(w *formatting.IndentedWriter, step *dsl.ProtocolStep, cha
 					}
 				}
 
-				tmpVarName := common.FieldIdentifierName(step.Name)
+				tmpVarName := stepTemporaryName(step)
 				tmpVarType := common.TypeSyntax(change.OldType())
 				fmt.Fprintf(w, "%s %s = {};\n", tmpVarType, tmpVarName)
 
